@@ -8,9 +8,10 @@
 //     cases : one history per line; steps separated by single spaces, fields by ':'.  Object slots are named by the
 //             case (any token); a service slot is created at first use.
 //               G:<0|1>                      xmlKeepBlanksDefault(v): the flag value the history starts from
-//               parse:<P>:<doc>:<M>[:m]      parser slot P (name starting with 'q': non-strict) parses table doc into model slot M;
-//                                            with :m the math strings are printed (M=..)
-//               build:<script>:<M>           run the script; model slot M := its slot 0
+//               parse:<P>:<doc>:<M>[:m][:ms] parser slot P (name starting with 'q': non-strict) parses table doc into model slot M;
+//                                            with :m the math strings are printed sorted (M=..), with :ms in the order
+//                                            the validator reads them (MS=..)
+//               build:<script>:<M>[:ms]      run the script; model slot M := its slot 0
 //               print:<R>:<M>[:auto][:t]     Printer::printModel (with :t the text is printed as hex)
 //               validate:<V>:<M>             Validator::validateModel
 //               analyse:<A>:<M>              Analyser::analyseModel
@@ -314,6 +315,7 @@ struct World
     std::map<std::string, GeneratorPtr> generators;
     std::map<std::string, ImporterPtr> importers;
     std::map<std::string, AnnotatorPtr> annotators;
+    std::vector<std::shared_ptr<Interp>> interps; // keep every scripted world alive: an ImportSource holds its model weakly
 };
 
 static size_t countRule(const LoggerPtr &l, Issue::ReferenceRule r)
@@ -346,6 +348,47 @@ static void collectMaths(const ComponentPtr &c, std::vector<std::string> &out, s
             collectMaths(c->component(i), out, depth + 1);
         }
     }
+}
+
+// the non-empty math strings in the order Validator::validateModel reads them: components in post-order
+// (validateComponentTree), and per component the test value and reset value of each reset, then the math
+static void validatorOrderMaths(const ComponentPtr &c, std::vector<std::string> &out, size_t depth)
+{
+    if (depth < 200) {
+        for (size_t i = 0; i < c->componentCount(); ++i) {
+            validatorOrderMaths(c->component(i), out, depth + 1);
+        }
+    }
+    if (c->isImport()) {
+        return;
+    }
+    for (size_t i = 0; i < c->resetCount(); ++i) {
+        auto r = c->reset(i);
+        if (!r->testValue().empty()) {
+            out.push_back(r->testValue());
+        }
+        if (!r->resetValue().empty()) {
+            out.push_back(r->resetValue());
+        }
+    }
+    if (!c->math().empty()) {
+        out.push_back(c->math());
+    }
+}
+
+static std::string mathsField(const ModelPtr &m)
+{
+    std::vector<std::string> ms;
+    if (m != nullptr) {
+        for (size_t i = 0; i < m->componentCount(); ++i) {
+            validatorOrderMaths(m->component(i), ms, 0);
+        }
+    }
+    std::string r = " MS=";
+    for (size_t i = 0; i < ms.size(); ++i) {
+        r += (i ? "," : "") + hexencode(ms[i]);
+    }
+    return r;
 }
 
 static std::string modelHashes(const ModelPtr &m)
@@ -390,6 +433,9 @@ static std::string runCase(const std::string &line)
                 + " xe=" + std::to_string(countRule(p, Issue::ReferenceRule::XML_UNEXPECTED_ELEMENT))
                 + " ec=" + std::to_string(countRule(p, Issue::ReferenceRule::ENCAPSULATION_CHILD))
                 + " ic=" + std::to_string(countRule(p, Issue::ReferenceRule::IMPORT_CHILD));
+            if (has("ms")) {
+                r += mathsField(m);
+            }
             if (has("m") && m != nullptr) {
                 std::vector<std::string> ms;
                 for (size_t i = 0; i < m->componentCount(); ++i) {
@@ -406,14 +452,18 @@ static std::string runCase(const std::string &line)
                 }
             }
         } else if (op == "build") {
-            Interp in;
+            auto in = std::make_shared<Interp>();
+            w.interps.push_back(in);
             for (const auto &cmd : splitws(gTable[arg(1)].second, ';')) {
                 if (!cmd.empty()) {
-                    in.exec(cmd);
+                    in->exec(cmd);
                 }
             }
-            w.models[arg(2)] = in.model(0);
-            r = modelHashes(in.model(0));
+            w.models[arg(2)] = in->model(0);
+            r = modelHashes(in->model(0));
+            if (has("ms")) {
+                r += mathsField(in->model(0));
+            }
         } else if (op == "print") {
             auto &p = w.printers[arg(1)];
             if (p == nullptr) {
@@ -447,7 +497,7 @@ static std::string runCase(const std::string &line)
             a->analyseModel(m);
             bool prevOk = true;
             for (const auto &pr : w.handedOut[arg(1)]) {
-                if (pr.first != a->model() && dumpAnalyserModel(pr.first) != pr.second) {
+                if (dumpAnalyserModel(pr.first) != pr.second) {
                     prevOk = false;
                 }
             }
@@ -481,11 +531,17 @@ static std::string runCase(const std::string &line)
             bool ok = im->resolveImports(m, gTable[arg(3)].second);
             Snap after = snap(m);
             std::string lib;
+            std::string libn;
+            std::string keys;
             for (size_t i = 0; i < im->libraryCount(); ++i) {
-                lib += im->key(i).substr(im->key(i).find_last_of('/') + 1) + "=" + h64(dumpModel(im->library(i), false, false)) + ";";
+                std::string base = im->key(i).substr(im->key(i).find_last_of('/') + 1);
+                std::string d = dumpModel(im->library(i), false, false);
+                lib += base + "=" + h64(d) + ";";
+                libn += base + "=" + h64(normaliseMathInDump(d)) + ";";
+                keys += (i ? "," : "") + base;
             }
             r = "R=" + std::to_string(ok) + " I=" + dumpIssues(im) + " L=" + std::to_string(im->libraryCount()) + " L0=" + std::to_string(lib0)
-                + " LH=" + h64(lib)
+                + " LH=" + h64(lib) + " LHn=" + h64(libn) + " LK=" + keys
                 + " U=" + std::to_string(maskHasModel(before.dump) == maskHasModel(after.dump) && before.ident == after.ident)
                 + " U0=" + std::to_string(before == after);
             if (gVerbose) {
@@ -519,6 +575,7 @@ static std::string runCase(const std::string &line)
             }
             w.models[arg(3)] = flat;
             std::string mh = modelHashes(flat);
+            mh.replace(mh.find(" Hn="), 4, " Fn=");
             r = "F" + mh.substr(1) + " I=" + dumpIssues(im) + " U=" + std::to_string(before == snap(m)) + " UL=" + std::to_string(ul)
                 + " nl=" + std::to_string(others.size());
         } else if (op == "removeall") {
